@@ -48,6 +48,25 @@ SUMMARY.update({
  'C19-B': ('C19', 'debug interceptor flattens the variadic slice and uses Call', 'logging on, variadic Apply callback that depends on the slice being nil or shared with the caller'),
 })
 
+SUMMARY.update({
+ 'C01-C': ('C01', 'the "-fm" branch of DefMocker.doApply removed: a method given to Func as a method value only gets its wrapper patched', 'target passed as obj.Method; calls in any other form (direct, interface, method expression, goroutine) run the original'),
+ 'C01-D': ('C01', 'entry jump becomes `mov r11,[rdx]; jmp r11`', 'mocked function whose parameters fill nine integer registers, Apply callback reading the ninth (R11 is an argument register)'),
+ 'C02-C': ('C02', 'ExportFunc stores the new mocker under a key computed after reset2CurPkg()', 'one builder mocks same-named unexported functions of two packages (one through Pkg()), then Reset: the first is orphaned and stays patched'),
+ 'C02-D': ('C02', 'baseMocker.Cancel returns early when the canceled flag is already set', 'm.Apply; m.Cancel; m.Apply through the same kept mocker object; then Reset/Cancel does nothing'),
+ 'C03-C': ('C03', 'opExpand gains entries, JLE widened to the JL opcode by copy-paste', 'frameless leaf starting with CMP;JLE beyond byte 13, origin called with the compared operands equal'),
+ 'C03-D': ('C03', 'fixIns treats a target at the function\'s own entry as external', 'loop whose head is the entry and fits in 13 bytes: the back edge in the trampoline goes to the mock'),
+ 'C06-C': ('C06', 'IsGenericsFunc no longer recognises value-receiver methods of generic types', 'Struct(Box[int]{}).Method(Val) with a value receiver and a direct call'),
+ 'C06-D': ('C06', 'MethodMocker.Apply skips the re-patch when the callback has the same code pointer', 'second Apply on the cached method mocker with another closure of the same literal'),
+ 'C07-C': ('C07', 'IContext.Cancel returns early once canceled', 'apply, Reset, apply again through the CachedInterfaceMocker kept from before, Reset: variable keeps the mock'),
+ 'C07-D': ('C07', 'DefaultInterfaceMocker.Apply skips when the callback has the same code pointer', 'same method applied twice with closures of one literal, debug off'),
+ 'C11-C': ('C11', 'jmpToFunctionValue fills a package-level template and returns a slice of it', 'interleaving M1.build < M2.build < M1.apply of independent builders: M1 writes M2\'s jump into its own target'),
+ 'C11-D': ('C11', 'roll-back of a rejected patch calls unpatchValue after the patches lock was released', 'one goroutine\'s configuration is refused inside replaceFunc while another goroutine is patching'),
+ 'C12-C': ('C12', 'DefMocker.Apply skips when the callback has the same code pointer', 'two consecutive Apply calls with closures of one literal'),
+ 'C12-D': ('C12', 'DefaultInterfaceMocker.As clears the When', 'interface method configured in two statements of one builder, the later repeating As(): earlier clauses dropped'),
+ 'C14-C': ('C14', 'final size check before writing the trampoline uses the relocated-prefix size instead of the data written', 'placeholder whose size lies in the 5/12-byte window between prefix and full write: next function overwritten'),
+ 'C14-D': ('C14', 'mProtectCrossPage loop bound `p < last`', 'write whose last byte is exactly the first byte of a page: that page is never unlocked'),
+})
+
 for sid, (prop, change, needs) in sorted(SUMMARY.items()):
     d = os.path.join(HERE, 'seeded', sid)
     tj = os.path.join(d, 'triage.json')
